@@ -22,7 +22,7 @@ import numpy as np
 from .. import common as C
 
 PROP = "C17"
-GEN_REGIONS: List[str] = []
+GEN_REGIONS: List[str] = ["Noise"]
 THEOREMS = {
     "SpecKitV.Lemmas.Chunking": [
         "Model.sectionRun_append", "Model.sectionRun_length", "Model.sectionRun_nil",
@@ -621,6 +621,21 @@ def correspondence(ctx) -> C.Part:
             P.disagreements.append({"op": "cascade", "nsec": len(secs), "n": int(x.size),
                                     "max_abs_diff": float(np.max(np.abs(my - out))) if ok_shape and x.size else None,
                                     "impl_state": zf.ravel().tolist(), "model_state": mz.tolist(), "oracle_payload": p})
+        # the GENERATED cascade (Gen/Noise.lean, translated from noise.py each run) must reproduce the model's (= the code's) numbers
+        if x.size <= 400:
+            def a2(rows):
+                return f"{len(rows)} {len(rows[0]) if rows else 2} " + " ".join(C.f2h(v) for r_ in rows for v in r_)
+            gl = "gencascade " + a2([[s_[0], s_[1]] for s_ in secs]) + " " + a2([[1.0, s_[2]] for s_ in secs]) + " " + \
+                 f"{len(secs)} 1 " + " ".join(C.f2h(s_[3]) for s_ in secs) + " " + C.arr(x)
+            gy_t, gz_t = parse_reply(drv.ask(gl))
+            gy = np.array([C.h2f(t) for t in gy_t], dtype=np.float64)
+            gz = np.array([C.h2f(t) for t in gz_t], dtype=np.float64)
+            P.cases += 1
+            P.hit("gencascade")
+            if not (gy.shape == out.shape and gz.shape == (len(secs),) and bool(np.all(np.abs(gy - out) <= 2 * SAFETY * ey))
+                    and bool(np.all(np.abs(gz - zf[:, 0]) <= 2 * SAFETY * ez))):
+                P.disagreements.append({"op": "gencascade", "nsec": len(secs), "n": int(x.size), "impl_state": zf.ravel().tolist(),
+                                        "generated_state": gz.tolist(), "oracle_payload": p})
         ys, zs = scipy_cascade(secs, x)
         P.cases += 1
         if not (bool(np.all(np.abs(ys - out) <= 2 * SAFETY * ey)) and bool(np.all(np.abs(zs - zf[:, 0]) <= 2 * SAFETY * ez))):
